@@ -11,6 +11,13 @@
 //! Requests are always delivered whole (splitting inside a frame is C20's subject), either one
 //! at a time (the reply to each is read before the next is sent) or pipelined in one delivery
 //! between two marker ECHOs.
+//! Two further dimensions of "a reply":
+//!  * SHAPE — query results whose cells are lists / maps nested to depths around and beyond the
+//!    depth the server's own decoder reads (`RespValue::MAX_NESTING_DEPTH`): a reply is one
+//!    frame however deep its arrays nest (or an error frame if the server will not send it);
+//!  * TRANSPORT — in most runs the connection accepts only a few bytes per `write` call (short
+//!    writes, as a socket with a full send buffer does) and returns spurious `Pending`: the
+//!    bytes the client receives for a request must still be the whole frame.
 //! Oracle: `kit::respwire` strict reader — the bytes written for a request are exactly one
 //! frame with nothing left over; the frame answers that request (equals the twin's reply from
 //! `handle_command`; when the twin's reply is a simple error whose text contains CR/LF — i.e.
@@ -46,6 +53,50 @@ pub const TEMPLATES: [&str; 16] = [
     "non_command_frame",
 ];
 
+/// Result values that nest: the reply is `[header, row]`, the row an array of cells, so a cell
+/// nested `depth` levels gives a reply of `depth + 2` array levels.
+pub const NESTED: [&str; 4] = ["nested_with_chain", "nested_list_of_variables", "nested_map_of_variables", "nested_list_map_mixed"];
+/// Cell depths of the systematic block: shallow, then every depth around the one at which the
+/// reply reaches the decoder's limit (cell depth 126 = 128 levels), then well beyond.
+pub const DEPTHS: [u64; 17] = [1, 2, 16, 60, 98, 120, 122, 123, 124, 125, 126, 127, 128, 129, 130, 160, 198];
+/// Levels of array nesting the server's own decoder reads.
+const DECODER_LEVELS: usize = samyama::protocol::resp::RespValue::MAX_NESTING_DEPTH;
+
+fn levels(v: &HVal) -> usize {
+    match v {
+        HVal::Array(xs) => 1 + xs.iter().map(levels).max().unwrap_or(0),
+        _ => 0,
+    }
+}
+
+/// A query whose single cell nests `depth` levels around `[7, '<lit>']`.  The lists / maps are
+/// built from variables: a collection literal made of constants only is folded into one property
+/// value by the parser and comes back as a single bulk string (no nesting on the wire).
+fn nested_query(tmpl: &str, depth: u64, lit: &str) -> String {
+    let d = depth.max(1) as usize;
+    let vars = format!("WITH 7 AS a, '{lit}' AS b");
+    match tmpl {
+        "nested_list_of_variables" => format!("{vars} RETURN {}a, b{} AS nested", "[".repeat(d), "]".repeat(d)),
+        "nested_map_of_variables" => format!("{vars} RETURN {}[a, b]{} AS nested", "{k: ".repeat(d - 1), "}".repeat(d - 1)),
+        "nested_list_map_mixed" => {
+            // alternate map and list levels, innermost first
+            let mut v = String::from("[a, b]");
+            for i in 1..d {
+                v = if i % 2 == 1 { format!("{{k: {v}}}") } else { format!("[{v}, a]") };
+            }
+            format!("{vars} RETURN {v} AS nested")
+        }
+        _ => {
+            let mut q = format!("{vars} WITH [a, b] AS x1");
+            for i in 2..=d {
+                q.push_str(&format!(" WITH [x{}] AS x{}", i - 1, i));
+            }
+            q.push_str(&format!(" RETURN x{d} AS nested"));
+            q
+        }
+    }
+}
+
 fn place(base: &str, inj: &str, wh: &str) -> String {
     match wh {
         "start" => format!("{inj}{base}"),
@@ -71,7 +122,7 @@ fn gq(q: &str) -> Vec<u8> {
 
 /// The requests (wire bytes) of one template instance.  The LAST request is the one whose
 /// reply carries the injected text; earlier ones prepare state.
-fn build(tmpl: &str, inj: &str, wh: &str, uniq: u64) -> Vec<Vec<u8>> {
+fn build(tmpl: &str, inj: &str, wh: &str, uniq: u64, depth: u64) -> Vec<Vec<u8>> {
     // string-literal bodies must not contain the quote or a backslash
     // (one two-byte character: a reply whose length counted characters instead of bytes would show)
     let lit = place("hello w\u{f6}rld", inj, wh);
@@ -111,6 +162,7 @@ fn build(tmpl: &str, inj: &str, wh: &str, uniq: u64) -> Vec<Vec<u8>> {
         }
         "wrong_arity" => vec![cmd(&[b"GRAPH.QUERY", lit.as_bytes()])],
         "regex_in_error" => vec![gq(&format!("RETURN 'abc' =~ '({lit}'"))],
+        t if t.starts_with("nested_") => vec![gq(&nested_query(t, depth, &lit))],
         _ => vec![w::encoded(&HVal::Simple(b"hello".to_vec()))],
     }
 }
@@ -159,14 +211,14 @@ impl Scenario for C22 {
         "C22"
     }
     fn runs(&self, tier: Tier) -> u64 {
-        let systematic = (TEMPLATES.len() * INJ.len() * WHERE.len()) as u64;
+        let systematic = grid_runs() + nested_runs();
         match tier {
             Tier::Quick => systematic + 1_500,
             Tier::Thorough => systematic + 120_000,
         }
     }
     fn rule(&self) -> &'static str {
-        "runs 0..288 enumerate template x newline kind x position (16 x 6 x 3), each sent alone and then pipelined between two marker ECHOs; later runs are PRNG sequences of 2-12 template instances on one connection, delivered one request at a time or several per delivery. Non-trivial = at least one request carried CR/LF into an echoable position. Distinct = hash of (template, newline kind, position, delivery mode) list. evaluations counts requests."
+        "runs 0..288 enumerate template x newline kind x position (16 x 6 x 3), runs 288..356 enumerate nested-result shape x cell depth (4 x 17: WITH [x] AS y chains, list / map / mixed collection expressions over variables, reply nesting 3..200 array levels with every level from 122 to 132, i.e. around the decoder's limit of 128), each sent alone and then pipelined between two marker ECHOs; later runs are PRNG sequences of 2-12 template instances (1 in 16 a nested result) on one connection, delivered one request at a time or several per delivery. Every run draws the connection's write behaviour: unlimited, or at most 1..max_write bytes accepted per write call (max_write 1/3/7/64/1000) and spurious Pending. Non-trivial = at least one request carried CR/LF into an echoable position or asked for a nested result. Distinct = hash of (template, newline kind, position, depth, delivery mode) list + write limit. evaluations counts requests."
     }
     fn real_components(&self) -> Vec<&'static str> {
         vec![
@@ -184,14 +236,33 @@ impl Scenario for C22 {
             "kit::respwire strict reader: a simple string / simple error line containing a bare CR or a bare LF is NOT well-formed (RESP spec: 'cannot contain a CR or LF'); bare CR and bare LF get their own signature class so the reading can be weakened without touching the CRLF class",
             "'reply k answers request k': equals the twin's handle_command reply; for a simple error whose text cannot be written verbatim only the type and the text before the first CR/LF are compared",
             "requests are delivered whole: chunking inside a frame is C20's subject",
+            "a reply may nest arbitrarily deep: the property has no depth bound, so a result the server computed must reach the client as one frame (or be refused with one error frame - the twin then reports the same error); the reference reader accepts 256 levels, the deepest generated reply has 200",
+            "the connection may accept fewer bytes than offered in a write call (AsyncWrite contract): the frame the client receives is still whole; replies are read when every server task waits for input",
         ]
     }
     fn required_probes(&self, _tier: Tier) -> Vec<&'static str> {
-        vec!["echo_error_reply", "bulk_reply_with_newline", "pipelined_with_markers", "stored_value_returned_later", "protocol_error_reply", "multi_request_delivery"]
+        vec!["echo_error_reply", "bulk_reply_with_newline", "pipelined_with_markers", "stored_value_returned_later", "protocol_error_reply", "multi_request_delivery", "nested_reply_below_decoder_limit", "nested_reply_at_decoder_limit", "nested_reply_beyond_decoder_limit", "nested_reply_pipelined", "reply_longer_than_one_write", "reply_written_in_one_call"]
     }
     fn generate(&self, s: &mut Streams, run_index: u64, _tier: Tier) -> Case {
         let mut case = Case::new("C22");
-        let systematic = (TEMPLATES.len() * INJ.len() * WHERE.len()) as u64;
+        // how the connection takes the server's writes (a conforming server loops until the whole reply is written)
+        let mw = *s.knobs.pick(&[0u64, 0, 1, 3, 7, 64, 1000]);
+        let pend = *s.knobs.pick(&[0u64, 0, 0, 2, 3, 5]);
+        case.knobs.insert("max_write".into(), json!(mw));
+        case.knobs.insert("pending_1_in".into(), json!(pend));
+        let mut d: Vec<u64> = (0..48).map(|_| s.fault.below(1 << 16)).collect();
+        d[0] = 1; // never an all-zero list: spurious Pending cannot repeat forever
+        case.knobs.insert("decisions".into(), json!(d));
+        let systematic = grid_runs();
+        if run_index >= systematic && run_index < systematic + nested_runs() {
+            let k = (run_index - systematic) as usize;
+            let (t, dp) = (k / DEPTHS.len(), k % DEPTHS.len());
+            case.knobs.insert("mode".into(), json!("systematic"));
+            // the innermost list holds an integer and a string; every other run puts a CRLF into the string
+            let i = if k % 2 == 0 { "crlf" } else { "none" };
+            case.events.push(json!({"op":"req","tmpl":NESTED[t],"inj":i,"where":"mid","u":1,"depth":DEPTHS[dp]}));
+            return case;
+        }
         if run_index < systematic {
             let t = (run_index as usize) / (INJ.len() * WHERE.len());
             let i = ((run_index as usize) / WHERE.len()) % INJ.len();
@@ -204,10 +275,21 @@ impl Scenario for C22 {
         let n = 2 + s.knobs.usize_below(11);
         let batchy = s.knobs.below(3); // 0: one at a time, 1: random batches, 2: everything in one delivery
         for k in 0..n {
-            let t = *s.workload.pick(&TEMPLATES);
+            let nested = s.workload.chance(1, 16);
+            let t = if nested { *s.workload.pick(&NESTED) } else { *s.workload.pick(&TEMPLATES) };
             let i = s.workload.pick(&INJ).0;
             let wq = *s.workload.pick(&WHERE);
-            case.events.push(json!({"op":"req","tmpl":t,"inj":i,"where":wq,"u":k as u64 + 2}));
+            let mut ev = json!({"op":"req","tmpl":t,"inj":i,"where":wq,"u":k as u64 + 2});
+            if nested {
+                // half of them within 6 levels of the decoder's limit (cell depth 126 = 128 levels)
+                let dp = match s.workload.below(4) {
+                    0 => 1 + s.workload.below(12),
+                    1 => 13 + s.workload.below(186),
+                    _ => 120 + s.workload.below(13),
+                };
+                ev["depth"] = json!(dp);
+            }
+            case.events.push(ev);
             let flush = match batchy {
                 0 => true,
                 1 => s.sched.chance(1, 2),
@@ -227,6 +309,20 @@ impl Scenario for C22 {
                 e["where"] = json!("mid");
                 out.push(e);
             }
+            if let Some(d) = ev["depth"].as_u64() {
+                for nd in [d / 2, d.saturating_sub(8), d.saturating_sub(1)] {
+                    if nd >= 1 && nd < d {
+                        let mut e = ev.clone();
+                        e["depth"] = json!(nd);
+                        out.push(e);
+                    }
+                }
+                if ev["inj"] != json!("none") {
+                    let mut e = ev.clone();
+                    e["inj"] = json!("none");
+                    out.push(e);
+                }
+            }
         }
         out
     }
@@ -245,11 +341,22 @@ impl Scenario for C22 {
                     let injn = ev["inj"].as_str().unwrap_or("none").to_string();
                     let wh = ev["where"].as_str().unwrap_or("mid").to_string();
                     let uniq = ev["u"].as_u64().unwrap_or(0);
-                    let reqs = build(&tmpl, inj_of(&injn), &wh, uniq);
+                    let depth = ev["depth"].as_u64().unwrap_or(1).clamp(1, 250);
+                    let reqs = build(&tmpl, inj_of(&injn), &wh, uniq, depth);
                     let n = reqs.len();
+                    let is_nested = tmpl.starts_with("nested_");
+                    keyparts.push(format!("{tmpl}/{injn}/{wh}/{}", if is_nested { depth } else { 0 }));
+                    // signature class of a nested result: does the reply (cell depth + 2 levels) stay below the
+                    // nesting the server's own decoder reads?
+                    let tmpl = if !is_nested {
+                        tmpl
+                    } else if (depth as usize) + 2 < DECODER_LEVELS {
+                        format!("{tmpl}/below_decoder_limit")
+                    } else {
+                        format!("{tmpl}/at_or_beyond_decoder_limit")
+                    };
                     let mk_req = |bytes: Vec<u8>, target: bool| Req { bytes, tmpl: tmpl.clone(), inj: injn.clone(), target };
-                    keyparts.push(format!("{tmpl}/{injn}/{wh}"));
-                    if injn != "none" {
+                    if injn != "none" || is_nested {
                         o.nontrivial = true;
                     }
                     if systematic {
@@ -261,6 +368,9 @@ impl Scenario for C22 {
                         let last = reqs.last().unwrap().clone();
                         let m1 = Req { bytes: marker(1), tmpl: "marker".into(), inj: "none".into(), target: false };
                         let m2 = Req { bytes: marker(2), tmpl: "marker".into(), inj: "none".into(), target: false };
+                        if is_nested {
+                            o.probe("nested_reply_pipelined");
+                        }
                         if tmpl == "malformed_frame" {
                             // after a protocol error the connection loop waits for the next read before
                             // it looks at already-buffered frames; that (liveness after garbage) is not
@@ -301,7 +411,15 @@ impl Scenario for C22 {
         // ---- the request bytes must themselves be requests the reference reader understands
         // (except the deliberately malformed one); the twin gets the parsed frames
         let twin = Twin::new();
-        let mut sim = ServerSim::new(&[StreamCfg::default()]);
+        let decisions: Vec<u64> = case.knobs.get("decisions").and_then(|v| v.as_array()).map(|a| a.iter().filter_map(|x| x.as_u64()).collect()).unwrap_or_default();
+        let cfg = StreamCfg {
+            pending_1_in: case.knob_u64("pending_1_in", 0),
+            max_write: case.knob_u64("max_write", 0) as usize,
+            decisions: if decisions.iter().all(|x| *x == 0) { vec![1] } else { decisions },
+        };
+        keyparts.push(format!("mw{}", cfg.max_write));
+        let mut sim = ServerSim::new(&[cfg]);
+        let mut seen = sim.stats(0);
         let mut state = 0u64;
         let mut total = 0u64;
         'outer: for (di, del) in deliveries.iter().enumerate() {
@@ -332,13 +450,39 @@ impl Scenario for C22 {
                 bytes.extend_from_slice(&r.bytes);
             }
             sim.deliver(0, bytes);
-            if sim.run_until_stalled(|_| 0, 100_000).is_none() {
+            // guard: a poll either ends in a spurious Pending (then the next call moves >= 1 byte) or in a real wait
+            let want_bytes: usize = want.iter().flatten().map(|v| w::encoded(v).len()).sum();
+            if sim.run_until_stalled(|_| 0, 100_000 + 8 * want_bytes as u64).is_none() {
                 o.violate(Violation::new("C22/livelock", "server task never stalls", di));
                 break;
             }
             o.steps += 1;
             let out = sim.streams[0].take_output();
             state = state.rotate_left(7) ^ crate::kit::rng::fnv1a(&out);
+            if std::env::var_os("C22_DEBUG").is_some() {
+                // development aid only (never set by the runner): what was asked and what came back
+                eprintln!("delivery {di}: {} requests, {} reply bytes: {}", del.len(), out.len(), w::show(&out[..out.len().min(300)]));
+                for (r, wv) in del.iter().zip(&want) {
+                    eprintln!("  {} -> twin levels {:?}", w::show(&r.bytes[..r.bytes.len().min(120)]), wv.as_ref().map(levels));
+                }
+            }
+            // what the transport did to this delivery's replies
+            let st = sim.stats(0);
+            let short = st.short_writes > seen.short_writes;
+            if short {
+                o.fault("short_write");
+                o.probe("reply_longer_than_one_write");
+            } else if st.writes > seen.writes {
+                o.probe("reply_written_in_one_call");
+            }
+            if st.spurious_pending > seen.spurious_pending {
+                o.fault("spurious_pending");
+            }
+            seen = st;
+            // state class of a violation: a reply stream that is broken when the connection took this
+            // delivery's replies in pieces is classed by that (one transport defect = one signature,
+            // whatever was asked); otherwise by the template and newline kind of the request
+            let class_of = |b: &Req| -> String { if short { "short_write".to_string() } else { format!("{}/{}", b.tmpl, b.inj) } };
             if let Some(msg) = &sim.panicked[0] {
                 o.violate(Violation::new(format!("C22/connection_panic/{}/{}", del[0].tmpl, del[0].inj), format!("delivery {di}: {msg}"), di));
                 break;
@@ -368,6 +512,16 @@ impl Scenario for C22 {
                                 _ => false,
                             }
                         }
+                        if r.tmpl.starts_with("nested_") && matches!(f, HVal::Array(_)) {
+                            let lv = levels(&f);
+                            if lv + 6 >= DECODER_LEVELS && lv < DECODER_LEVELS {
+                                o.probe("nested_reply_below_decoder_limit");
+                            } else if lv == DECODER_LEVELS {
+                                o.probe("nested_reply_at_decoder_limit");
+                            } else if lv > DECODER_LEVELS {
+                                o.probe("nested_reply_beyond_decoder_limit");
+                            }
+                        }
                         if r.tmpl == "stored_then_returned" && r.target && has_nl_bulk(&f) {
                             o.probe("stored_value_returned_later");
                             o.probe("bulk_reply_with_newline");
@@ -379,7 +533,7 @@ impl Scenario for C22 {
                         if !ok {
                             let b = blame(k);
                             o.violate(Violation::new(
-                                format!("C22/reply_does_not_answer_request/{mode}/{}/{}", b.tmpl, b.inj),
+                                format!("C22/reply_does_not_answer_request/{mode}/{}", class_of(b)),
                                 format!(
                                     "delivery {di} request #{k} {}: reply {} ; the handler's reply for it is {}",
                                     w::show(&r.bytes),
@@ -395,7 +549,7 @@ impl Scenario for C22 {
                     Parsed::NeedMore => {
                         let b = blame(k);
                         o.violate(Violation::new(
-                            format!("C22/reply_missing_or_truncated/{mode}/{}/{}", b.tmpl, b.inj),
+                            format!("C22/reply_missing_or_truncated/{mode}/{}", class_of(b)),
                             format!("delivery {di} request #{k} {}: {} bytes of output left: {}", w::show(&r.bytes), out.len() - pos, w::show(&out[pos..])),
                             di,
                         ));
@@ -406,7 +560,7 @@ impl Scenario for C22 {
                         let tail = &out[pos..];
                         let nl = if why.contains("bare LF") { "bare_lf" } else if why.contains("bare CR") { "bare_cr" } else { "other" };
                         o.violate(Violation::new(
-                            format!("C22/reply_not_wellformed/{mode}/{}/{}/{nl}", b.tmpl, b.inj),
+                            format!("C22/reply_not_wellformed/{mode}/{}/{nl}", class_of(b)),
                             format!("delivery {di} request #{k} {}: reply bytes {} are not a RESP frame: {why}", w::show(&r.bytes), w::show(tail)),
                             di,
                         ));
@@ -418,7 +572,7 @@ impl Scenario for C22 {
                 let b = del.iter().rev().find(|x| x.target).unwrap_or(&del[0]);
                 let mode = if del.len() == 1 { "single" } else { "pipelined" };
                 o.violate(Violation::new(
-                    format!("C22/more_than_one_frame_per_request/{mode}/{}/{}", b.tmpl, b.inj),
+                    format!("C22/more_than_one_frame_per_request/{mode}/{}", class_of(b)),
                     format!("delivery {di}: {} requests, their replies end at byte {pos} but {} more bytes were written: {}", del.len(), out.len() - pos, w::show(&out[pos..])),
                     di,
                 ));
@@ -431,6 +585,14 @@ impl Scenario for C22 {
         o.state_hash = state;
         o
     }
+}
+
+fn grid_runs() -> u64 {
+    (TEMPLATES.len() * INJ.len() * WHERE.len()) as u64
+}
+
+fn nested_runs() -> u64 {
+    (NESTED.len() * DEPTHS.len()) as u64
 }
 
 /// marker after a request? (derived from the event's own number so that it survives shrinking)
